@@ -7,6 +7,8 @@ package main
 
 import (
 	"context"
+	"fmt"
+	"os"
 	"encoding/json"
 	"net/http"
 	"net/http/httptest"
@@ -81,7 +83,8 @@ func goLeaked(pre map[int64]bool) int {
 	for {
 		n := 0
 		for _, g := range dump() {
-			if !pre[g.id] && strings.Contains(g.stack, apiPkg+"Go.func1") {
+			// a goroutine still inside the harness' own function is not blocked by the library
+			if !pre[g.id] && strings.Contains(g.stack, apiPkg+"Go.func1") && !strings.Contains(g.stack, "(*run).goFunc") {
 				n++
 			}
 		}
@@ -91,6 +94,13 @@ func goLeaked(pre map[int64]bool) int {
 		if n == last {
 			stable++
 			if stable >= 40 {
+				if os.Getenv("C15_DEBUG") != "" {
+					for _, g := range dump() {
+						if !pre[g.id] && strings.Contains(g.stack, apiPkg+"Go.func1") {
+							fmt.Fprintf(os.Stderr, "LEAK goroutine %d [%s]%s\n", g.id, g.state, g.stack)
+						}
+					}
+				}
 				return n
 			}
 		} else {
@@ -126,8 +136,17 @@ func runCaseWS(roots []*fnode, gmp int, batchSpins [nBatch]int, events, which in
 	for e := 0; e < events; e++ {
 		r := newRun(b.items, b.conns)
 		r.batchSpins = batchSpins
+		r.holdSpan = e < events-1
+		if e > 0 {
+			r.prevSpan = holder.runs[e-1]
+		}
 		holder.runs = append(holder.runs, r)
 	}
+	defer func() {
+		for _, r := range holder.runs {
+			r.releaseSpan()
+		}
+	}()
 	srv := httptest.NewServer(http.HandlerFunc(func(w http.ResponseWriter, req *http.Request) {
 		api.ServeGraphQLWS(w, req.WithContext(context.WithValue(req.Context(), runKey, holder)))
 	}))
